@@ -121,6 +121,13 @@ def safe_check(prop, case):
     that the independent reader cannot make sense of (BadState) is the library's output being wrong,
     not a harness problem."""
     from pv.harness import BadState, NonFinite
+    # a case is plain data: it is checked in the form a replay file gives it (every string its own object, as
+    # names read from separate places of a file are), so generation and replay cannot differ and code comparing
+    # names by identity instead of equality is exposed
+    try:
+        case = json.loads(json.dumps(case))
+    except (TypeError, ValueError):
+        pass
     try:
         return prop.check_case(case)
     except NonFinite:
